@@ -287,3 +287,32 @@ def replay(ctx, prop, path):
     traces = mc.record(payload.get('scenario', 'base'), [h])
     verdicts, _ = mc.validate(traces)
     return judge(ctx, prop, traces, verdicts)
+
+
+def selftest(ctx, prop):
+    """(a) Master.tla with a defect switched on must violate the invariant;
+    (b) every seeded change for this property must make the check exit 1."""
+    import glob
+    import json
+    import os
+    import subprocess
+    ok = True
+    for defects, inv in {'C09': [(('init_names_only',), 'InvC09')], 'C10': [(('init_not_two_pass',), 'InvC10dup')],
+                         'C11': []}[prop]:
+        mod, cfg, files = mc_cfg(defects=defects, max_events=4, max_cycles=3, invariants=[inv])
+        res = tlc.mc(mc.SPEC_DIR, mod, cfg, extra_files=files, coverage=False, timeout=600)
+        good = res['violated'] == inv
+        ok = ok and good
+        print('selftest model defect %-20s -> %s' % (defects[0], 'counterexample of %s in %d steps' % (inv, len(res['cex']))
+                                                     if good else 'NOT DETECTED'))
+    for d in sorted(glob.glob(os.path.join(core.VERIF, 'seeded', prop + '-*'))):
+        if not os.path.exists(os.path.join(d, 'patch.diff')):
+            continue
+        subprocess.run([os.path.join(core.VERIF, 'tools_seeded.py'), 'eval', d],
+                       stdout=subprocess.PIPE, stderr=subprocess.STDOUT)
+        hist = json.load(open(os.path.join(d, 'results.json')))
+        rc = list(hist[-1]['checks'].values())[0]['exit'] if hist and hist[-1].get('checks') else None
+        print('selftest seeded change %-22s -> check exit %s' % (os.path.basename(d), rc))
+        ok = ok and rc == 1
+    print('selftest %s' % ('passed' if ok else 'FAILED'))
+    return 0 if ok else 1
